@@ -38,6 +38,7 @@ ASSUMPTIONS = ['mask parameters are arbitrary reals (no bound); float32 rounding
                'frozen receptive-field / dilation maskers (stride != 1) keep their initial all-ones parameters (not trainable)',
                'weights are concrete generic dyadic values (C08 does not depend on them)']
 INSTANCE_TIMEOUT_S = {'quick': 900, 'thorough': 3600}
+Q_FP = 120000
 
 
 def instances(tier, seed):
@@ -46,6 +47,9 @@ def instances(tier, seed):
     cs = (1, 3) if tier == 'quick' else (1, 2, 3, 6)
     for K in ks:
         out.append({'id': f'layer:K={K}', 'kind': 'layer', 'K': K, 'Cs': list(cs)})
+    # bit-precise float32 mask parameters (z3 FloatingPoint): every finite float32 with |v| <= 1e30, incl. the huge ones
+    for K in (range(1, 5) if tier == 'quick' else range(1, 7)):
+        out.append({'id': f'layer_fp32:K={K}', 'kind': 'fp32', 'K': K, 'Cs': [min(K, 3)]})
     nets = []
     if tier == 'quick':
         for K in range(1, 9):
@@ -174,7 +178,7 @@ def concrete_net(spec, values, seed=0):
 
 
 def replay(rec):
-    if rec['kind'] == 'layer':
+    if rec['kind'] in ('layer', 'fp32'):
         obs, viol = concrete_layer(rec['K'], rec['C'], rec['values'])
     else:
         obs, viol = concrete_net(rec['spec'], rec['values'], rec.get('wseed', 0))
@@ -189,6 +193,9 @@ def run_instance(p):
     if p['kind'] == 'layer':
         for C in p['Cs']:
             _run_layer(res, p['K'], C, p.get('selftest', False))
+    elif p['kind'] == 'fp32':
+        for C in p['Cs']:
+            _run_layer_fp32(res, p['K'], C, p.get('selftest', False))
     else:
         _run_net(res, p['spec'], p.get('seed', 0), p.get('selftest', False))
     return res
@@ -286,6 +293,75 @@ def _run_layer(res, K, C, selftest):
                    'key': f'layer:PITConv1d|K={K}|obs={cviol or bad}'}
             _violation(res, rec, f'PITConv1d(K={K}): {bad}')
     res.absorb(ex)
+
+
+def _run_layer_fp32(res, K, C, selftest):
+    """the same validity obligations as _run_layer, with the mask parameters as bit-precise float32 terms: rounding,
+    absorption and cancellation in the keep-alive arithmetic are part of the model (reals cannot see them)"""
+    from plinio.methods.pit.nn import PITConv1d
+    from plinio.methods.pit.nn.features_masker import PITFeaturesMasker
+    from plinio.methods.pit.nn.timestep_masker import PITTimestepMasker
+    from plinio.methods.pit.nn.dilation_masker import PITDilationMasker
+    layer = PITConv1d(nn.Conv1d(1, C, K), PITFeaturesMasker(C), PITTimestepMasker(K), PITDilationMasker(K))
+    F32 = st.core.F32
+    BIG = z3.FPVal(1e30, F32)
+
+    def fresh(ex, names):
+        shapes = {'alpha': (C,), 'beta': tuple(layer.timestep_masker.beta.shape), 'gamma': tuple(layer.dilation_masker.gamma.shape)}
+        mods = {'alpha': layer.out_features_masker, 'beta': layer.timestep_masker, 'gamma': layer.dilation_masker}
+        sy = {n: SymTensor.fresh_fp32(n, shapes[n]) for n in names}
+        for t in sy.values():
+            for v in t.elems():
+                ex.assume(z3.Not(z3.fpIsNaN(v)), z3.fpLEQ(z3.fpAbs(v), BIG))
+        return [(mods[n], n, sy[n]) for n in names], sy
+
+    def fn(ex):
+        out = []
+        # features and time masks depend on disjoint parameters: two independent groups of queries
+        pairs, sy = fresh(ex, ['alpha'])
+        with SymMode(), swapped_params(pairs):
+            fm = layer._features_mask(True)
+        nf = z3.Sum([st.lift(v, 'r') for v in fm.elems()])
+        r, m = ex.check(nf < 1)
+        out.append(('features_mask_all_zero', r, m, sy))
+        r, _ = ex.check(nf >= C, z3.fpGT(sy['alpha'].elems()[0], z3.FPVal(1e29, F32)))
+        out.append(('witness', r, None, sy))
+        pairs, sy = fresh(ex, ['beta', 'gamma'])
+        with SymMode(), swapped_params(pairs):
+            tm = layer._time_mask(True)
+        el = [st.lift(v, 'r') for v in tm.elems()]
+        nt = z3.Sum(el)
+        lim = 2 if (selftest and K >= 2) else 1
+        # lemma first (a much smaller formula): the most recent tap alone is alive; only if that cannot be shown, the full disjunction
+        r, m = ex.check(el[-1] < 1) if lim == 1 else ('sat', None)
+        if r != 'unsat':
+            r, m = ex.check(nt < lim)
+        out.append(('time_mask_all_zero', r, m, sy))
+        r, _ = ex.check(el[-1] >= 1, z3.fpGT(sy['beta'].elems()[0], z3.FPVal(1e29, F32)))
+        out.append(('witness', r, None, sy))
+        return out
+    ex = Explorer(timeout_ms=Q_FP)
+    for pc, out in ex.explore(fn):
+        for name, r, m, sy in out:
+            if name == 'witness':
+                res.witnesses += 1
+                res.witnesses_ok += 1 if r == 'sat' else 0
+                continue
+            if r == 'unknown':
+                res.inconclusive.append(f'fp32 K={K} C={C} {name}: unknown')
+                continue
+            res.oblige(r == 'unsat')
+            if r == 'sat':
+                vals = {'alpha': ['1.0'] * C, 'beta': ['1.0'] * layer.timestep_masker.beta.numel(), 'gamma': ['1.0'] * layer.dilation_masker.gamma.numel()}
+                vals.update({k: [repr(float(st.model_value(m, v))) for v in t.elems()] for k, t in sy.items()})
+                rec = {'kind': 'fp32', 'K': K, 'C': C, 'values': vals, 'observable': name,
+                       'key': f'layer_fp32:PITConv1d|K={K}|obs={name}' + ('|selftest' if selftest else '')}
+                if selftest:
+                    res.violations.append(dict(jsonable(rec), what='seeded oracle'))
+                else:
+                    _violation(res, rec, f'PITConv1d(K={K},C={C}) float32: {name} for {vals}')
+    res.absorb(ex)
+    res.sample({'K': K, 'C': C, 'float32': True, 'domain': 'every finite float32 with |v| <= 1e30'})
 
 
 def _run_net(res, spec, wseed, selftest):
